@@ -72,7 +72,7 @@ def specSchema : List ClassDef := [
     k 1 "outputs" (.list (c "TransactionOutput")),
     k 2 "fee" .int,
     ko 3 "ttl" .int,
-    ko 4 "certificates" (.list certificate),
+    ko 4 "certificates" (.oset certificate true),   -- certificates = nonempty_oset<certificate>
     ko 5 "withdraws" (c "Withdrawals"),
     ko 6 "update" .any,
     ko 7 "auxiliary_data_hash" (c "AuxiliaryDataHash"),
@@ -95,9 +95,9 @@ def specSchema : List ClassDef := [
   cls "TransactionWitnessSet" .map [
     ko 0 "vkey_witnesses" (.oset (c "VerificationKeyWitness") true),
     ko 1 "native_scripts" (.oset (c "NativeScript") true),
-    ko 2 "bootstrap_witness" (.list .any),
+    ko 2 "bootstrap_witness" (.oset .any true),   -- nonempty_set<bootstrap_witness>
     ko 3 "plutus_v1_script" (.oset (c "PlutusV1Script") true),
-    ko 4 "plutus_data" (.list .any),
+    ko 4 "plutus_data" (.oset .any true),   -- nonempty_set<plutus_data>
     ko 5 "redeemer" (.union [.list (c "Redeemer"), c "RedeemerMap"]),
     ko 6 "plutus_v2_script" (.oset (c "PlutusV2Script") true),
     ko 7 "plutus_v3_script" (.oset (c "PlutusV3Script") true)],
